@@ -19,7 +19,8 @@ RULE = ('(a) EXHAUSTIVE grid 7 clefs x 5 octave marks x 7 letters x 5 alteration
         'quick tier, all of it in the thorough tier).  (c) Hypothesis documents (profile "agnostic": clef changes, '
         'clef changes inside sub-spines, joins, chords, rests - in a third of the documents also rests in front of the first clef -, **root spines): akern/aekern must equal kern/ekern '
         'cell for cell except for the pitch letters of notes, converted under the clef the spine-path model says is in '
-        'force.  Non-trivial: clef other than G2 with an accidental (grid) / document with a clef change or a '
+        'force; for documents without accidentals and chords also a transposed copy (tokens built by to_transposed): its agnostic '
+        'exports equal those of its own kern text imported again.  Non-trivial: clef other than G2 with an accidental (grid) / document with a clef change or a '
         'sub-spine.')
 ASSUMPTIONS = ['the bottom-line pitch of each clef is read from Clef.bottom_line(): the property is stated relative to it; '
                'a consistent change of that constant is invisible here (DESIGN.md section 6)',
@@ -161,11 +162,36 @@ def check_doc(case):
             diff = X.same(K.grid(gt), X.render(X.T(X.F(base, sel), agn)))
             if diff:
                 raise Bad('agnostic-doc-filtered', f'{agn} with exclude={excl}: {diff}\n--- source\n{text}--- {agn}\n{gt}')
+    # the same for a document produced by kernpy itself: a transposed copy (the tokens are built by to_transposed, not by the
+    # parser) exports to the agnostic text of the document one gets by importing its kern export.  Only documents whose
+    # notes have no accidental and no chord take part (what to_transposed does to those is C15's matter, with findings of its own)
+    notes_ = [n for _, _, c in S.cells(doc) if 'notes' in c for n in c['notes'] if n['p'] != 'r']
+    plain_doc = notes_ and not any(n['acc'] for n in notes_) and not any(c['k'] == 'chord' for _, _, c in S.cells(doc))
+    tclass = []
+    if plain_doc:
+        iv, dr = [('M2', 'up'), ('m2', 'up'), ('M3', 'down'), ('A4', 'up'), ('m3', 'down'), ('P5', 'up')][len(text) % 6]
+        src2 = K.loads_clean(text)  # a copy of its own: to_transposed is known to rewrite its source (KF-C15-SHARED)
+        try:
+            t2 = src2.to_transposed(iv, dr)
+        except Exception:  # noqa  (a result that cannot be spelled)
+            t2 = None
+        if t2 is not None:
+            tk = K.dumps(t2, what='kern of the transposed copy')
+            rel, rerr = kp.loads(tk)
+            if not rerr:
+                tclass = ['transposed-copy']
+                for agn in ('akern', 'aekern'):
+                    want = K.dumps(rel, what=agn, encoding=K.ENCODINGS[agn])
+                    got_ = K.dumps(t2, what=agn + ' of the transposed copy', encoding=K.ENCODINGS[agn])
+                    if got_ != want:
+                        dl = [(x, y) for x, y in zip(got_.split('\n'), want.split('\n')) if x != y][:3]
+                        raise Bad('agnostic-of-transposed-copy', f'{agn} export of the copy transposed {iv} {dr} differs from the {agn} export of its own kern '
+                                                                 f'text imported again: {dl}\n--- kern of the copy\n{tk}')
     clefs = [c['t'] for _, _, c in S.cells(doc) if c.get('sig') == 'clef']
     nt = len(set(clefs)) > 1 or a.has_split
     changes_in_sub = any(c.get('sig') == 'clef' and a.spines[i].count(a.spines[i][k]) > 1 for i, k, c in S.cells(doc))
     return Result(nontrivial=nt, classes=K.doc_classes(doc, a) + (['clef-change-in-sub-spine'] if changes_in_sub else []) +
-                  (['several-clefs'] if len(set(clefs)) > 1 else []), sample=text, evals=4, key=text)
+                  (['several-clefs'] if len(set(clefs)) > 1 else []) + tclass, sample=text, evals=4 + 2 * len(tclass), key=text)
 
 
 def run(ctx):
